@@ -37,6 +37,8 @@ pub struct CommandAcknowledgementHandle {
     waker_state: Arc<Mutex<WakerState>>,
     #[cfg(feature = "verif_hooks")]
     verif: Option<crate::cache::verif::AckHandler>,
+    #[cfg(feature = "verif_hooks")]
+    verif_id: u64,
 }
 
 pub(crate) struct WakerState {
@@ -56,6 +58,8 @@ impl CommandAcknowledgement {
                     })),
                     #[cfg(feature = "verif_hooks")]
                     verif: None,
+                    #[cfg(feature = "verif_hooks")]
+                    verif_id: crate::cache::verif::next_ack_id(),
                 },
             }
         )
@@ -71,6 +75,8 @@ impl CommandAcknowledgement {
                     })),
                     #[cfg(feature = "verif_hooks")]
                     verif: None,
+                    #[cfg(feature = "verif_hooks")]
+                    verif_id: crate::cache::verif::next_ack_id(),
                 },
             }
         )
@@ -86,6 +92,8 @@ impl CommandAcknowledgement {
                     })),
                     #[cfg(feature = "verif_hooks")]
                     verif: None,
+                    #[cfg(feature = "verif_hooks")]
+                    verif_id: crate::cache::verif::next_ack_id(),
                 },
             }
         )
@@ -108,10 +116,15 @@ impl CommandAcknowledgement {
                         waker: None
                     })),
                     verif: handler,
+                    verif_id: crate::cache::verif::next_ack_id(),
                 },
             }
         )
     }
+
+    /// Identity of this acknowledgement in trace events (feature `verif_hooks` only).
+    #[cfg(feature = "verif_hooks")]
+    pub fn verif_id(&self) -> u64 { self.handle.verif_id }
 
     /// Completes the acknowledgement exactly as the command worker does (feature `verif_hooks` only).
     #[cfg(feature = "verif_hooks")]
